@@ -1,5 +1,6 @@
 import ScrapliModel.Lemmas.Timeout
 import ScrapliModel.Props.C01
+import ScrapliModel.Props.C04
 import ScrapliModel.Generated.Consts
 import ScrapliModel.Generated.C05RpcSites
 import ScrapliModel.Generated.BodiesTimeout
@@ -444,6 +445,93 @@ example :
     ¬ x.cmd.Sublist (leftover ++ x.echo).flatten.dropLast ∧
     x.resp.flatten ≠ [] ∧ ExactAt (promptPred exCfg) x.resp.flatten := by
   decide
+
+/-! ## recovery for operations with privilege navigation -/
+
+/-- A navigation step (`SendInput` of an escalate / de-escalate command) whose device goes silent
+    AFTER the return was sent — the echo arrived, `n` bytes of the answer (fewer than the prompt
+    needs) did: the step returns the timeout within one tick of `T`, and what the device received
+    is the command AND its return. The device has executed the line (its mode has changed) while
+    the client only knows that the step failed: this is the fault `PrivFault.lean` models. -/
+theorem nav_step_timeout_device_moved (d : Nat) (hd : 0 < d) (cfg : Cfg) (cmd : Bytes) (T : Nat)
+    (hT : 0 < T) (ce : List Bytes) (hne : ce.flatten ≠ [])
+    (he : ExactAt (echoPred cfg cmd) ce.flatten)
+    (Sr : Bytes) (hr : ExactAt (promptPred cfg) Sr) (n : Nat) (hn : n < Sr.length)
+    (sr : Sched) (hsr : bytesOf sr = Sr.take n)
+    (st : St) (hp : st.pend = []) (hrs : st.rs = [ce.map some, sr]) :
+    (run d (sendInputP cfg cmd T) st).1 = Out.timeout ∧
+    (run d (sendInputP cfg cmd T) st).2.writes = st.writes ++ [cmd, cfg.ret] ∧
+    st.now + T ≤ (run d (sendInputP cfg cmd T) st).2.now ∧
+    (run d (sendInputP cfg cmd T) st).2.now < st.now + T + d := by
+  obtain ⟨tail, h1, htail⟩ := readUntil_exact (echoPred cfg cmd) [] ce [] rfl hne he
+  simp only [List.nil_append, List.append_nil] at h1
+  have hlt : st.now < st.now + T := by omega
+  have r1 : phaseRead d (echoPred cfg cmd) (some T) st = ⟨true, ce.flatten, st.now, tail.map some⟩ := by
+    unfold phaseRead phaseDeadline
+    rw [hp, hrs]
+    simp only [List.headD_cons, List.nil_append]
+    rw [readUntilT_somes _ _ _ _ _ _ hlt, h1]
+  have r2ok : (phaseRead d (promptPred cfg) none
+      (phaseSt d [cmd] (echoPred cfg cmd) (some T) st)).ok = false := by
+    apply readUntilT_never
+    intro j
+    have hb : bytesOf ((phaseSt d [cmd] (echoPred cfg cmd) (some T) st).pend ++
+        (phaseSt d [cmd] (echoPred cfg cmd) (some T) st).rs.headD []) = Sr.take n := by
+      have e1 : (phaseSt d [cmd] (echoPred cfg cmd) (some T) st).pend = tail.map some := by
+        show (phaseRead _ _ _ st).rest = _; rw [r1]
+      have e2 : (phaseSt d [cmd] (echoPred cfg cmd) (some T) st).rs = [sr] := by
+        show st.rs.tail = _; rw [hrs]; rfl
+      rw [e1, e2, bytesOf_append, bytesOf_somes, htail]
+      simpa using hsr
+    rw [hb, List.nil_append]
+    exact noPrefix_of_exactAt _ Sr hr n hn j
+  have hrun : run d (sendInputP cfg cmd T) st =
+      (.timeout, phaseSt d [cfg.ret] (promptPred cfg) none (phaseSt d [cmd] (echoPred cfg cmd) (some T) st)) := by
+    unfold sendInputP
+    rw [run_io, r1]
+    simp only [if_true]
+    rw [run_io, r2ok]
+    rfl
+  have htime := timeout_window d hd (sendInputP cfg cmd T) st (by unfold sendInputP; trivial)
+  rw [run_singleRestart d _ T (sendInputP_single cfg cmd T) st] at htime
+  rw [hrun] at htime ⊢
+  refine ⟨rfl, ?_, htime.1, htime.2⟩
+  show (st.writes ++ [cmd]) ++ [cfg.ret] = _
+  simp
+
+/-- RECOVERY AFTER A TIMED-OUT OPERATION WITH NAVIGATION (link to C04). Hypothesis: the level cache
+    is reset to `UNKNOWN` BEFORE each navigation command is sent (`resetBefore = true`, what
+    `processAcquirePriv` does; C04's `reset_before_send_keeps_cache_sound`). Then, whatever
+    operation `op₁` came first and whichever of its navigation steps timed out after the device
+    had already moved (ANY fault pattern — `nav_step_timeout_device_moved` is such a step), the
+    session is usable: the next operation `op₂`, of any kind, either fails in its own acquisition
+    and sends no payload line, or delivers every one of its payload lines in the level IT demands
+    (commands at the default level, configuration lines at the configuration / requested level),
+    never in the level the timed-out operation left the device in. Instance of C04's
+    `payload_level_under_faults` with the timed-out operation as history. -/
+theorem recovery_after_timed_out_navigation {c : Priv.Cfg} (hd : Priv.Dom c)
+    (hu : Priv.allUnamb c = true) (hdef : c.default ∈ Priv.names c.L) (faults : Nat → Bool)
+    (s0 : Priv.Sess) (hi : Priv.Inv c s0) (op₁ op₂ : Priv.Op)
+    (h1 : ∀ l ∈ Priv.opLines op₁, l = [] ∨ Priv.isPayload c.L l = true)
+    (h2 : ∀ l ∈ Priv.opLines op₂, l = [] ∨ Priv.isPayload c.L l = true) :
+    let s := (Priv.runOpF c true faults s0 op₁).2
+    ∃ s1, Priv.Inv c s1 ∧
+      (((Priv.runOpF c true faults s op₂).1 ≠ none ∧ (Priv.runOpF c true faults s op₂).2 = s1) ∨
+       Priv.PayloadAt c op₂ s1 (Priv.runOpF c true faults s op₂)) := by
+  have := Priv.C04.payload_level_under_faults hd hu hdef faults [op₁] s0 hi
+    (by intro op hop; simp only [List.mem_singleton] at hop; subst hop; exact h1) op₂ h2
+  simpa [Priv.runOpsF] using this
+
+/-- the hypothesis is needed: with the reset only AFTER a successful step, a `SendConfigs` whose
+    escalation timed out after the device had entered configuration mode leaves the old level
+    cached, the next `SendCommand` skips the acquisition and its command `[115]` reaches the device
+    in configuration mode `[99]` instead of the default level `[112]` -/
+theorem recovery_fails_without_reset_before :
+    (Priv.runOpsF Priv.C04.exCfg false (fun t => t == 0) Priv.C04.exAtP
+        [.sendConfigs [[120]] [99], .sendCommand [115]]).2.dev.log.getLast? = some ([99], [115]) ∧
+    (Priv.runOpsF Priv.C04.exCfg true (fun t => t == 0) Priv.C04.exAtP
+        [.sendConfigs [[120]] [99], .sendCommand [115]]).2.dev.log.getLast? = some ([112], [115]) := by
+  decide +kernel
 
 /-! ## tie to the source: translated body = model (regenerated on every run) -/
 
